@@ -37,19 +37,19 @@ HARNESS_FEATURES = ""
 # toggle sets tried for attribution, most specific first
 TOGGLE_SETS = [
     ["f3"],
-    ["f3", "f31"],                               # = fixes/F3-… + fixes/F31-… on top of the committed fixes of F2, F16
+    ["f3", "f31"],                               # = fixes/F3-… + fixes/F31-… on top of the committed fixes
     ["f3", "f31", "f32"],
-    ["f3", "f14", "f31", "f32"],
-    ["f1", "f3", "f14", "f31", "f32"],           # + the C01 findings F1/F14 (firewalls), which cyclic programs hit too
 ]
 
 PARTIAL = [
     "cycle_incremental (values after edits that create/remove cycles equal the from-scratch values) is FALSE for the "
-    "code as it is: findings F3, F30, F31, F32 (canonical replays in corpus/engine-cyclic, witnesses checked "
-    "against the real engine on every run); F2 and F16 were fixed in /repo (531aeb1, 3fbfd09) and their replays now "
-    "run clean. Not proved for a repaired configuration: the toggled model {f3,f31} meets the oracle on all "
-    "generated programs without firewalls/projections, and with them only up to the residual recorded as "
-    "F32/F30/F1/F14.",
+    "code as it is: findings F3, F31, F32 (canonical replays in corpus/engine-cyclic, kernel-checked witnesses in "
+    "Props/C06Inc.lean, checked against the real engine on every run). Fixed in /repo, replays now clean: F2 (531aeb1), "
+    "F16 (3fbfd09), F33 (4685b5a); F30 (hang of repair_transitive_firewall_callees) is no longer reproducible since the "
+    "F1 fix 2abe9f6 keeps firewall sets accurate (its replay returns the from-scratch values; a recurrence is a "
+    "VIOLATION). The same fix made F32 more frequent: a distrusted clean edge into a cycle re-runs one member alone "
+    "(even after an EMPTY session). Not proved for a repaired configuration: the toggled model {f3,f31,f32} meets the "
+    "oracle on every generated case it is asked about, which is evidence, not a theorem.",
     "concurrent requests (two tasks entering one SCC from two sides) are outside these sequential models (C02's LTS); "
     "this includes the interleaving of the engine's own spawned repair tasks when a query has >= 2 transitive firewall "
     "callees or backward projections (cases marked order-sensitive). Finding F33 (a hang of check_cyclic_internal in "
